@@ -91,6 +91,15 @@ let handler r =
   | "likseq" -> let m = integer r in
       let cs = List.init m (fun _ -> let s = num r in let n = integer r in let b = num r in (s, n, b)) in
       List.iter (fun (s, n, b) -> put_f (log_likelihood_poisson fops s (zi n) b); put_f (likelihood_poisson fops s (zi n) b)) cs
+  | "liksess" -> let m = integer r in
+      (* one process, m requests in order: L s n b | L0 s n (default background) | B S N Bg | B0 S N (default background) *)
+      let qs = List.init m (fun _ -> match word r with
+        | "L" -> let s = num r in let n = integer r in let b = num r in ReqLik (s, zi n, b)
+        | "L0" -> let s = num r in let n = integer r in ReqLik (s, zi n, 0.0)
+        | "B" -> let s = list r in let n = List.map zi (ilist r) in let b = list r in ReqBinned (s, n, b)
+        | "B0" -> let s = list r in let n = List.map zi (ilist r) in ReqBinned (s, n, [])
+        | w -> failwith ("liksess_request_" ^ w)) in
+      List.iter (fun (l, k) -> put_f l; put_f k) (ok (lik_session fops qs))
   | ("binned" | "binned0") as op -> let s = list r in let n = List.map zi (ilist r) in let b = if op = "binned" then list r else [] in
       let a = ok (log_likelihood_poisson_binned fops s n b) in
       let l = ok (likelihood_poisson_binned fops s n b) in
